@@ -10,6 +10,7 @@ import time
 from typing import TYPE_CHECKING, cast
 
 from pynetdicom import evt
+from pynetdicom import _verif
 from pynetdicom.fsm import StateMachine
 from pynetdicom.pdu import (
     A_ASSOCIATE_RQ,
@@ -402,6 +403,9 @@ class DULServiceProvider(Thread):
                 #   will also increase the latency to respond to new requests
                 time.sleep(self._run_loop_delay)
 
+            if _verif.ENABLED:
+                _verif.point("dul.top", self)
+
             if self._kill_thread:
                 break
 
@@ -435,6 +439,9 @@ class DULServiceProvider(Thread):
                 self.assoc._kill = True
                 self._kill_thread = True
                 return
+
+            if _verif.ENABLED:
+                _verif.point("dul.ev", self)
 
             # Check the event queue to see if there is anything to do
             try:
